@@ -58,6 +58,8 @@ structure Cfg where
   lastSeqProcessed : Bool := false
   /-- the message validator (settings + data dictionaries) -/
   validator : VCfg := {}
+  /-- EnableNextExpectedMsgSeqNum: the Logons we send carry tag 789, the peer's 789 is evaluated by `handleLogon` -/
+  nextExpected : Bool := false
   deriving Repr, Inhabited
 
 def bsName : Nat → String
@@ -320,14 +322,45 @@ def dropAndReset (s : Sess) : Sess := (s.setToSend []).storeReset
 
 def mkOut (kind : String) (f : Fields) : OutMsg := { kind := kind, seq := 0, f := f }
 
-def logonMsg (s : Sess) (reset : Bool) : OutMsg :=
+/-- tag 789 (NextExpectedMsgSeqNum) of an inbound Logon as `Body.GetInt` reads it (absent and unreadable are alike to the code) -/
+def peerNext (m : InMsg) : Option Int := match getInt m 789 with | .val n => some n | _ => none
+
+def nxTag : Option Int → Fields
+  | some n => [(789, toString n)]
+  | none => []
+
+/-- the Logon of `sendLogonInReplyTo` with `nx` in tag 789 -/
+def logonMsgX (s : Sess) (reset : Bool) (nx : Option Int) : OutMsg :=
   mkOut "A" ([(108, toString s.hb)] ++ (if reset then [(141, "Y")] else [])
-             ++ (if s.cfg.applVer.isEmpty then [] else [(1137, s.cfg.applVer)]))
+             ++ (if s.cfg.applVer.isEmpty then [] else [(1137, s.cfg.applVer)]) ++ nxTag nx)
+
+/-- tag 789 of a Logon sent on our own account (`inReplyTo = nil`: connect, ResetSeqTime): `NextTargetMsgSeqNum() + 1`, read
+    before `prepMessageForSend` resets the store for a Logon carrying 141=Y (session.go l.203–205; the code as it is — see
+    notes/proofs_b_nx.md, observation 1) -/
+def nxOwn (s : Sess) : Option Int := if s.cfg.nextExpected then some (s.store.target + 1) else none
+
+/-- tag 789 of the acceptor's reply: only when the Logon answered carries a readable 789; `NextTargetMsgSeqNum() + 1` —
+    the number expected once the Logon being answered is counted -/
+def nxReply (s : Sess) (m : InMsg) : Option Int :=
+  if s.cfg.nextExpected && (peerNext m).isSome then some (s.store.target + 1) else none
+
+def logonMsg (s : Sess) (reset : Bool) : OutMsg := logonMsgX s reset (nxOwn s)
+
+/-- the Logon answering `m` -/
+def logonMsgRe (s : Sess) (reset : Bool) (m : InMsg) : OutMsg := logonMsgX s reset (nxReply s m)
 
 def sendLogonInReplyTo (s : Sess) (reset : Bool) : Sess := dropAndSend s (logonMsg s reset)
 
 /-- sendLogonInReplyTo(reset, msg) with `msg ≠ nil`: the acceptor's answer to a Logon -/
-def sendLogonRe (s : Sess) (reset : Bool) (m : InMsg) : Sess := dropAndSend s ((logonMsg s reset).inReplyTo m)
+def sendLogonRe (s : Sess) (reset : Bool) (m : InMsg) : Sess := dropAndSend s ((logonMsgRe s reset m).inReplyTo m)
+
+/-- the peer's tag 789 is above `n` (EnableNextExpectedMsgSeqNum on, 789 readable) -/
+def nxAbove (cfg : Cfg) (m : InMsg) (n : Int) : Bool :=
+  cfg.nextExpected && (match peerNext m with | some x => decide (x > n) | none => false)
+
+/-- `sendLogonInReplyTo(_, msg)` refuses (RejectLogon) when the peer's 789 is above our next outbound number:
+    "we can't resend what we never sent" -/
+def nxRefuses (s : Sess) (m : InMsg) : Bool := nxAbove s.cfg m s.store.sender
 
 def shouldSendReset (s : Sess) : Bool :=
   if s.cfg.bs < 1 then false
@@ -683,18 +716,92 @@ def logonReply (s : Sess) (m : InMsg) (flag : Bool) : Sess :=
     if flag && s.sentReset && s.st.loggedOn then s else sendLogonRe s flag m
   else s
 
-/-- the end of handleLogon: arm the peer timer, notify, gap check, consume the Logon's number -/
-def logonFinish (s : Sess) (m : InMsg) : Sess × Option LogonErr :=
-  let s := ((s.setSentReset false).emit (.armPeer (1200 * s.hb))).emit .onLogon
-  match checkTooHigh s m with
-  | some r => (s, some (.rej r))
-  | none => (incrTarget s, none)
+/-- the implied gap fill of handleLogon: `generateSequenceReset(b, e, *msg)` — a SequenceReset-GapFill with PossDupFlag whose
+    header is that of a reply to the Logon (tag 369) -/
+def gapFillRe (s : Sess) (m : InMsg) (b e : Int) : OutMsg := { gapFill b e with last := replyLastOf s m }
+
+theorem nxAbove_off (cfg : Cfg) (m : InMsg) (n : Int) (h : cfg.nextExpected = false) : nxAbove cfg m n = false := by
+  unfold nxAbove; rw [h]; rfl
+theorem nxAbove_absent (cfg : Cfg) (m : InMsg) (n : Int) (h : peerNext m = none) : nxAbove cfg m n = false := by
+  unfold nxAbove; rw [h]; simp
+theorem nxRefuses_off (s : Sess) (m : InMsg) (h : s.cfg.nextExpected = false) : nxRefuses s m = false := nxAbove_off _ m _ h
+theorem nxRefuses_absent (s : Sess) (m : InMsg) (h : peerNext m = none) : nxRefuses s m = false := nxAbove_absent _ m _ h
+
+theorem Fields.has_of_get? (f : Fields) (t : Nat) (v : String) (h : f.get? t = some v) : f.has t = true := by
+  unfold Fields.get? at h
+  unfold Fields.has
+  cases hf : f.find? (·.1 == t) with
+  | none => rw [hf] at h; cases h
+  | some p =>
+    have h1 : (p.1 == t) = true := List.find?_some (p := fun x : Nat × String => x.1 == t) hf
+    exact List.any_eq_true.2 ⟨p, List.mem_of_find?_eq_some hf, h1⟩
+
+/-- handleLogon's evaluation of the peer's tag 789 (session.go l.581–596; only when the Logon has no tag 141 at all): `ns` is
+    `nextSenderMsgNumAtLogonReceived` — our next outbound number when the Logon ARRIVED: before a reset the Logon causes,
+    before our reply.  A readable 789 different from `ns`: with persistence `generateSequenceReset(789, ns + 1, msg)` — nothing
+    is replayed, the store is not read; without, the error `targetTooHigh{789, ns}`.  (The code as it is: notes/proofs_b_nx.md,
+    observations 2–5.) -/
+def nxEval (s : Sess) (m : InMsg) (ns : Int) : Sess × Option Rej :=
+  if s.cfg.nextExpected && !(m.f.has 141) then
+    match peerNext m with
+    | some n =>
+      if n != ns then
+        if s.cfg.persist then (enqueueAndSend s (gapFillRe s m n (ns + 1)), none)
+        else (s, some (.tooHigh n ns))
+      else (s, none)
+    | none => (s, none)
+  else (s, none)
+
+/-- the end of handleLogon: arm the peer timer, notify, the peer's 789, gap check, consume the Logon's number -/
+def logonFinish (s : Sess) (m : InMsg) (ns : Int) : Sess × Option LogonErr :=
+  match nxEval (((s.setSentReset false).emit (.armPeer (1200 * s.hb))).emit .onLogon) m ns with
+  | (s, some r) => (s, some (.rej r))
+  | (s, none) =>
+    match checkTooHigh s m with
+    | some r => (s, some (.rej r))
+    | none => (incrTarget s, none)
 
 def logonResetFlag (m : InMsg) : Bool := match getBool m 141 with | .val b => b | _ => false
 
-def handleLogon (s : Sess) (m : InMsg) : Sess × Option LogonErr :=
-  if s.cfg.bs == 5 && !(m.f.has 1137) then (s, some .other) else
-  let s := if !s.cfg.initiator && s.cfg.refreshOnLogon then s.emit .refresh else s
+/-- does the acceptor's `sendLogonInReplyTo(_, msg)` return RejectLogon instead of answering (peer's 789 above our next outbound
+    number, session.go l.195–198)?  An initiator never refuses. -/
+def logonRefuses (s : Sess) (m : InMsg) (flag : Bool) : Bool :=
+  !s.cfg.initiator && !(flag && s.sentReset && s.st.loggedOn) && nxRefuses s m
+
+/-- what handleLogon has done by then: the acceptor has adopted the peer's HeartBtInt -/
+def logonRefused (s : Sess) (m : InMsg) : Sess :=
+  if !s.cfg.initiator && !s.cfg.hbOverride then (match getInt m 108 with | .val h => s.setHb h | _ => s) else s
+
+/-- handleLogon once the Logon has passed the checks: the acceptor's reply (or its refusal), then `logonFinish` -/
+def logonTail (s : Sess) (m : InMsg) (ns : Int) : Sess × Option LogonErr :=
+  if logonRefuses s m (logonResetFlag m) then (logonRefused s m, some (.rej .rejectLogon))
+  else logonFinish (logonReply s m (logonResetFlag m)) m ns
+
+/-- the configurations in which the evaluation of the peer's tag 789 never ends in an error: the option off, or message
+    persistence on (without persistence a 789 different from our number is reported as `targetTooHigh{789, our outbound number}`) -/
+def NxNoErr (cfg : Cfg) : Prop := cfg.nextExpected = false ∨ cfg.persist = true
+
+theorem nxEval_noErr (s : Sess) (m : InMsg) (ns : Int) (h : NxNoErr s.cfg) : (nxEval s m ns).2 = none := by
+  unfold nxEval
+  rcases h with h | h
+  · rw [h]; rfl
+  · rw [h]; simp only [if_true]; repeat' split
+    all_goals rfl
+
+/-! the option off (`EnableNextExpectedMsgSeqNum=N`, the default): nothing of the above happens -/
+theorem nxEval_off (s : Sess) (m : InMsg) (ns : Int) (h : s.cfg.nextExpected = false) : nxEval s m ns = (s, none) := by
+  unfold nxEval; rw [h]; rfl
+theorem logonRefuses_off (s : Sess) (m : InMsg) (flag : Bool) (h : s.cfg.nextExpected = false) : logonRefuses s m flag = false := by
+  unfold logonRefuses; rw [nxRefuses_off s m h, Bool.and_false]
+theorem logonTail_off (s : Sess) (m : InMsg) (ns : Int) (h : s.cfg.nextExpected = false) :
+    logonTail s m ns = logonFinish (logonReply s m (logonResetFlag m)) m ns := by
+  unfold logonTail; rw [logonRefuses_off s m _ h]; rfl
+theorem nxOwn_off (s : Sess) (h : s.cfg.nextExpected = false) : nxOwn s = none := by unfold nxOwn; rw [h]; rfl
+theorem nxReply_off (s : Sess) (m : InMsg) (h : s.cfg.nextExpected = false) : nxReply s m = none := by unfold nxReply; rw [h]; rfl
+
+def handleLogon (s0 : Sess) (m : InMsg) : Sess × Option LogonErr :=
+  if s0.cfg.bs == 5 && !(m.f.has 1137) then (s0, some .other) else
+  let s := if !s0.cfg.initiator && s0.cfg.refreshOnLogon then s0.emit .refresh else s0
   match verifyAppImpl s m with
   | (s, some r) => (s, some (.rej r))
   | (s, none) =>
@@ -702,7 +809,7 @@ def handleLogon (s : Sess) (m : InMsg) : Sess × Option LogonErr :=
     let s := if resetStore then dropAndReset s else s
     match verifySelect s m false true false with
     | (s, some r) => (s, some (.rej r))
-    | (s, none) => logonFinish (logonReply s m (logonResetFlag m)) m
+    | (s, none) => logonTail s m s0.store.sender      -- (nextSenderMsgNumAtLogonReceived, read before everything else)
 
 def inSessionFixMsgIn (s : Sess) (m : InMsg) : Sess × SState :=
   let k := kindOf m
